@@ -161,12 +161,73 @@ def free_consts(terms):
     return out
 
 
+def _syms(t):
+    seen, out, st = set(), set(), [t]
+    while st:
+        x = st.pop()
+        if x.get_id() in seen:
+            continue
+        seen.add(x.get_id())
+        if z3.is_app(x) and x.decl().kind() == z3.Z3_OP_UNINTERPRETED:
+            out.add(x.decl().name())
+        st.extend(x.children())
+    return out
+
+
+def relevant_hyps(hyps, goal_terms):
+    """hypotheses that can constrain the goal terms: (1) equations defining a constant that occurs nowhere else are dropped
+    (they can always be satisfied by the choice of that constant), (2) only the hypotheses connected to the goal terms through
+    shared symbols are kept (the rest is satisfiable independently, the path being feasible)."""
+    hyps = list(hyps)
+    gs = set()
+    for t in goal_terms:
+        gs |= _syms(t)
+    changed = True
+    while changed:
+        changed = False
+        symsets = [_syms(h) for h in hyps]
+        count = {}
+        for ss in symsets:
+            for n in ss:
+                count[n] = count.get(n, 0) + 1
+        keep = []
+        for h, ss in zip(hyps, symsets):
+            drop = False
+            if z3.is_eq(h):
+                for side in h.children():
+                    if z3.is_const(side) and side.decl().kind() == z3.Z3_OP_UNINTERPRETED:
+                        n = side.decl().name()
+                        other = h.children()[1] if side is h.children()[0] else h.children()[0]
+                        if n not in gs and count.get(n, 0) == 1 and n not in _syms(other):
+                            drop = True
+                            break
+            if drop:
+                changed = True
+            else:
+                keep.append(h)
+        hyps = keep
+    # connected component
+    rel = set(gs)
+    symsets = [_syms(h) for h in hyps]
+    used = [False] * len(hyps)
+    grow = True
+    while grow:
+        grow = False
+        for k, ss in enumerate(symsets):
+            if not used[k] and (ss & rel):
+                used[k] = True
+                rel |= ss
+                grow = True
+    return [h for h, u in zip(hyps, used) if u]
+
+
 def clearly_different(pc, a, b, guard=None, tries=24, seed=0):
     """True iff some interpretation satisfying pc (and guard) makes a and b differ by more than 1e-6 relative.
     a, b: real/int z3 terms (or lists of terms compared component-wise)."""
     la = a if isinstance(a, (list, tuple)) else [a]
     lb = b if isinstance(b, (list, tuple)) else [b]
     hyps = [h for h in pc if isinstance(h, z3.ExprRef)] + ([guard] if guard is not None else [])
+    hyps = relevant_hyps(hyps, list(la) + list(lb))
     consts = free_consts(hyps + list(la) + list(lb))
     rng = random.Random(seed)
     for k in range(tries):
